@@ -259,7 +259,16 @@ class ListWithAdjustments(object):
     #   theoretical ground.
     assert count > 0
     begin = self._adj_get_key(index - 1) if index > 0 else 0.0
-    end = self._adj_get_key(index) if index < len(self._orig_list) else begin + count + 1
+    if index < len(self._orig_list):
+      end = self._adj_get_key(index)
+    else:
+      # Appending after the last key: normally the new keys are the next integers.
+      end = begin + count + 1
+      if begin >= 2.0 ** 53:
+        # Floats from 2^53 up are more than 1 apart (begin + count + 1 may even equal begin), so
+        # there may be no room for new keys below that. There is no upper neighbor to respect:
+        # just take a wider interval. (If this overflows, everything gets renumbered below.)
+        end = begin * 2
     if begin < 0 or end <= 0 or math.isinf(max(begin, end)):
       # This should only happen if we have some invalid positions (e.g. from before we started
       # using this logic). In this case, just renumber everything 1 through n (leaving space so
